@@ -3,4 +3,6 @@ REGISTRY = {
     "C01": "core",
     "C02": "core",
     "C03": "core",
+    "C10": "core",
+    "C11": "core",
 }
